@@ -1,6 +1,8 @@
 import Gomacro.Drv.C19
 import Gomacro.Drv.C17
 import Gomacro.Drv.C20
+import Gomacro.Drv.An
+import Gomacro.Drv.C09
 /-! JSON-lines driver: one request object per line in, one reply per line out.
 Unknown ops are `bad-op`, never defaulted.  Core-only imports (links as an executable). -/
 open Lean Gomacro.Drv
@@ -8,7 +10,9 @@ open Lean Gomacro.Drv
 def handlers : List (String × Handler) := [
   ("c19.write", c19Write),
   ("c17.root", c17Root),
-  ("c20.run", c20Run)
+  ("c20.run", c20Run),
+  ("an.analyse", anAnalyse),
+  ("c09.field", c09Field)
 ]
 
 def handleLine (line : String) : String :=
